@@ -265,6 +265,34 @@ def _check_wellformed(case, switch):
     return dict(nontrivial=len(set(src["pos"])) >= 3 and len(set(src["neg"])) >= 3, labels=labels)
 
 
+# -------------------------------------------------------------------- clause: tiny classes, many draws
+def _tiny_cases(tier):
+    """One or two scored samples per class (plus easy ones): in a fair share of the draws nothing is selected
+    from a class - from both at once in 1/16 .. 1/256 of them - and the at-least-one rule has to step in."""
+    sizes = [(1, 1, 50, 50), (2, 2, 0, 0), (1, 2, 200, 100), (2, 1, 10, 500), (1, 1, 0, 0), (2, 3, 40, 0)]
+    for n, m, ep, en in sizes:
+        for method in ("single_pass", "replacement"):
+            for strat in (None, "by_label"):
+                for seed in (0, 1) if tier == "quick" else range(8):
+                    yield dict(n=n, m=m, ep=ep, en=en, method=method, strat=strat, seed=seed)
+
+
+def check_tiny(case):
+    n, m = case["n"], case["m"]
+    src = dict(pos=[0.5 + k for k in range(n)], neg=[0.25 - k for k in range(m)], ep=case["ep"], en=case["en"],
+               sc="pos", ec="pos", dtype=None, subclass=False)
+    cfg = dict(method=case["method"], strat=case["strat"])
+    s = _source(src)
+    config = _config(cfg)
+    np.random.seed(case["seed"])
+    both = 0
+    for j in range(600):
+        b = s.bootstrap_sample(config)
+        check_sample(src, cfg, b, s, f"cfg={cfg} seed={case['seed']} draw {j} source n={n} m={m} ep={case['ep']} en={case['en']}")
+        both += 1
+    return dict(nontrivial=True, labels=[f"tiny:{case['method']}"])
+
+
 # -------------------------------------------------------------------- clause: rejections
 _rej_cases = st.fixed_dictionaries(dict(
     src=_sources(big=False, max_size=6),
@@ -508,6 +536,8 @@ PROP = Prop(
     clauses=[
         Clause("wellformed", check_wellformed, strategy=_wf_cases(), quick=500, thorough=15000,
                quick_shards=4, min_nontrivial=200, doc="per-sample invariants"),
+        Clause("tiny_classes", check_tiny, kind="enum", cases=_tiny_cases, quick_shards=4, shards=8,
+               min_nontrivial=10, doc="600 draws each from sources with 1-3 scored samples per class"),
         Clause("rejections", check_rejections, strategy=_rej_cases, quick=40, thorough=100, shards=1,
                min_nontrivial=4, doc="documented ValueErrors"),
         Clause("chain", check_chain, kind="machine", machine=make_chain_machine, quick=80,
